@@ -18,7 +18,8 @@ WRAPPED = ext_class(
     coro_method=ExtMethod("coro_method", effect=True, is_async=True, raises=[ValueError],
                           returns=lambda I, s, a, k: T.opaque.fresh(I, "coro_result")),
     plain_method=ExtMethod("plain_method", effect=True),
-    plain_returning=ExtMethod("plain_returning", effect=True, returns=lambda I, s, a, k: T.int.fresh(I, "value")),
+    plain_returning=ExtMethod("plain_returning", effect=True, returns=lambda I, s, a, k: T.int.fresh(I, "value"),
+                              native=lambda self, rec, *a, **k: (rec.add(("wrapped.plain_returning", self, tuple(a), dict(k))), 1)[1]),
 )
 
 
@@ -28,8 +29,65 @@ def _call_soon_threadsafe(I, self_obj, args, kwargs):
     return None
 
 
+def _native_call_soon_threadsafe(self, rec, *args, **kwargs):
+    rec.add(("loop.call_soon_threadsafe", self, tuple(args), dict(kwargs)))
+    if "scheduled" not in vars(self):
+        object.__setattr__(self, "scheduled", [])
+    self.scheduled.append((args[0], tuple(args[1:])))
+
+
 OWNER_LOOP = ext_class("loop", fields={"closed": T.bool}, is_closed=field("closed"), stable_fields=("closed",))
-OWNER_LOOP.methods["call_soon_threadsafe"] = ExtMethod("call_soon_threadsafe", fn=_call_soon_threadsafe)
+OWNER_LOOP.methods["call_soon_threadsafe"] = ExtMethod("call_soon_threadsafe", fn=_call_soon_threadsafe,
+                                                       native=_native_call_soon_threadsafe)
+
+
+class _AsyncioShim:
+    """what bellows.thread sees as `asyncio` while a counterexample is replayed on the real code: the running
+    loop is the model's caller loop (no OS thread is involved in the dispatch decision), the two cross-loop
+    hand-over functions record their call; everything else is the real asyncio"""
+
+    def __init__(self, bindings, rec):
+        self._b, self._rec = bindings, rec
+        self.running = bindings.get("caller_loop")
+
+    def get_running_loop(self):
+        return self.running
+
+    def run_coroutine_threadsafe(self, coro, loop):
+        self._rec.add(("asyncio.run_coroutine_threadsafe", None, (coro, loop), {}))
+        if hasattr(coro, "close"):
+            coro.close()
+        import types as _t
+
+        return _t.SimpleNamespace(of=coro)
+
+    def wrap_future(self, fut, loop=None):
+        self._rec.add(("asyncio.wrap_future", None, (fut,), {"loop": loop}))
+        import types as _t
+
+        return _t.SimpleNamespace(of=fut, loop=loop)
+
+    def __getattr__(self, name):
+        return getattr(asyncio, name)
+
+
+_SHIM = [None]
+
+
+class _native_thread_context:
+    def __init__(self, bindings, rec):
+        self.shim = _AsyncioShim(bindings, rec)
+
+    def __enter__(self):
+        self.saved = thread.asyncio
+        thread.asyncio = self.shim
+        _SHIM[0] = self.shim
+        return self
+
+    def __exit__(self, *exc):
+        thread.asyncio = self.saved
+        _SHIM[0] = None
+        return False
 
 
 @external("asyncio.coroutines.iscoroutinefunction")
@@ -67,9 +125,8 @@ PROXY = ClassSpec(
 
 def _set_caller_loop(same):
     def setup(I, b):
-        proxy = b["proxy"]
         if same:
-            I.ctx.ghost["running_loop"] = proxy.fields["_obj_loop"]
+            I.ctx.ghost["running_loop"] = b["owner_loop"]
         else:
             I.ctx.ghost["running_loop"] = T.ext(OWNER_LOOP).fresh(I, "caller_loop")
         b["caller_loop"] = I.ctx.ghost["running_loop"]
@@ -78,27 +135,39 @@ def _set_caller_loop(same):
 
 
 # ---- lemma functions: a call made through the proxy, as the caller writes it --------------------------
-def call_through_proxy(proxy, name, arg):
+# The proxy is always built by the real constructor (ThreadsafeProxy.__init__ runs from its source), so whatever
+# state the class keeps per proxy is the state the real code creates -- not a record shape declared here.
+def call_through_proxy(obj, owner_loop, name, arg):
+    proxy = thread.ThreadsafeProxy(obj, owner_loop)
     return getattr(proxy, name)(arg, key=arg)
 
 
-def call_then_run_owner_loop(proxy, name, arg):
+def call_then_run_owner_loop(obj, owner_loop, name, arg):
     """the call, followed by the owner loop running what was scheduled on it"""
+    proxy = thread.ThreadsafeProxy(obj, owner_loop)
     r = getattr(proxy, name)(arg, key=arg)
-    for cb, cb_args in getattr(proxy._obj_loop, "scheduled", []):
+    for cb, cb_args in getattr(owner_loop, "scheduled", []):
         cb(*cb_args)
     return r
 
 
+def burst_then_run_owner_loop(obj, owner_loop, first, second, a1, a2):
+    """a burst of two plain calls through a proxy built by the real constructor, then the owner loop runs what
+    was scheduled on it -- one callback at a time, an exception of a callback going to the loop's exception
+    handler (asyncio's contract for call_soon callbacks), never to the next callback"""
+    proxy = thread.ThreadsafeProxy(obj, owner_loop)
+    r1 = getattr(proxy, first)(a1, key=a1)
+    r2 = getattr(proxy, second)(a2, key=a2)
+    for cb, cb_args in getattr(owner_loop, "scheduled", []):
+        try:
+            cb(*cb_args)
+        except Exception:
+            pass
+    return (r1, r2)
+
+
 def direct_calls(fx):
     return [r for r in fx if r[0].startswith("wrapped.") or (r[0] == "call" and r[1].startswith("wrapped."))]
-
-
-def _proxy_contract(fn, label, same, names):
-    @contract(f"contracts.thread.{fn}", props=["C20"])
-    def _(c):
-        c.variant = label
-        c.inline_callees = True
 
 
 def _cases(kind_names):
@@ -107,7 +176,8 @@ def _cases(kind_names):
 
 @contract("contracts.thread.call_through_proxy", props=["C20"])
 def _(c):
-    c.arg("proxy", T.obj(PROXY))
+    c.arg("obj", T.ext(WRAPPED))
+    c.arg("owner_loop", T.ext(OWNER_LOOP))
     c.arg("arg", T.opaque)
     c.cases(
         *[(f"{n} from the owner's loop", {"name": T.const(n), "__same__": True}) for n in ("coro_method", "plain_method", "plain_returning", "not_callable")],
@@ -115,13 +185,14 @@ def _(c):
     )
     c.setup = lambda I, b: _set_caller_loop(_SAME[I.ctx.ghost.get("__case__", "")])(I, b)
     c.inline_callees = True
+    c.native_context = _native_thread_context
     # "non-callable attributes are refused"
     c.raises("not_callable", TypeError, when=lambda name: name == "not_callable")
     # "Calls from the owner's loop run directly": exactly one direct call with the caller's arguments
     c.ensures(
         "post.owner_loop_calls_directly",
-        lambda proxy, name, arg, caller_loop, fx: implies(
-            caller_loop is proxy._obj_loop,
+        lambda owner_loop, name, arg, caller_loop, fx: implies(
+            caller_loop is owner_loop,
             len(direct_calls(fx)) == 1 and [r for r in fx if r[0] in ("loop.call_soon_threadsafe", "asyncio.run_coroutine_threadsafe")] == [],
         ),
     )
@@ -129,8 +200,8 @@ def _(c):
     # wrapped object runs on the caller's path
     c.ensures(
         "post.other_loop_never_runs_the_method_itself",
-        lambda proxy, caller_loop, fx: implies(
-            not (caller_loop is proxy._obj_loop),
+        lambda owner_loop, caller_loop, fx: implies(
+            not (caller_loop is owner_loop),
             [r for r in fx if r[0].startswith("wrapped.") and r[0] != "wrapped.coro_method"] == []
             and [r for r in fx if r[0] == "await"] == [],
         ),
@@ -138,8 +209,8 @@ def _(c):
     # "once the owner's loop is closed calls are dropped without executing or blocking"
     c.ensures(
         "post.closed_owner_loop_drops_the_call",
-        lambda proxy, caller_loop, result, fx: implies(
-            not (caller_loop is proxy._obj_loop) and proxy._obj_loop.is_closed(),
+        lambda owner_loop, caller_loop, result, fx: implies(
+            not (caller_loop is owner_loop) and owner_loop.is_closed(),
             result is None and [r for r in fx if r[0] in ("loop.call_soon_threadsafe", "asyncio.run_coroutine_threadsafe")] == []
             and direct_calls(fx) == [],
         ),
@@ -148,10 +219,10 @@ def _(c):
     # handed to run_coroutine_threadsafe on the OWNER's loop and the caller gets wrap_future of it on its own loop
     c.ensures(
         "post.coroutine_relayed_through_the_owner_loop",
-        lambda proxy, name, caller_loop, result, fx: implies(
-            not (caller_loop is proxy._obj_loop) and not proxy._obj_loop.is_closed() and name == "coro_method",
+        lambda owner_loop, name, caller_loop, result, fx: implies(
+            not (caller_loop is owner_loop) and not owner_loop.is_closed() and name == "coro_method",
             len([r for r in fx if r[0] == "asyncio.run_coroutine_threadsafe"]) == 1
-            and [r for r in fx if r[0] == "asyncio.run_coroutine_threadsafe"][0][2][1] is proxy._obj_loop
+            and [r for r in fx if r[0] == "asyncio.run_coroutine_threadsafe"][0][2][1] is owner_loop
             and [r for r in fx if r[0] == "asyncio.wrap_future"][0][3]["loop"] is caller_loop
             and result.of.of is [r for r in fx if r[0] == "asyncio.run_coroutine_threadsafe"][0][2][0]
             and [r for r in fx if r[0] == "loop.call_soon_threadsafe"] == [],
@@ -160,11 +231,11 @@ def _(c):
     # "for plain methods the call is queued": only scheduled on the owner's loop, nothing returned
     c.ensures(
         "post.plain_method_is_queued_on_the_owner_loop",
-        lambda proxy, name, caller_loop, result, fx: implies(
-            not (caller_loop is proxy._obj_loop) and not proxy._obj_loop.is_closed() and name in ("plain_method", "plain_returning"),
+        lambda owner_loop, name, caller_loop, result, fx: implies(
+            not (caller_loop is owner_loop) and not owner_loop.is_closed() and name in ("plain_method", "plain_returning"),
             result is None
             and len([r for r in fx if r[0] == "loop.call_soon_threadsafe"]) == 1
-            and [r for r in fx if r[0] == "loop.call_soon_threadsafe"][0][1] is proxy._obj_loop
+            and [r for r in fx if r[0] == "loop.call_soon_threadsafe"][0][1] is owner_loop
             and [r for r in fx if r[0] == "asyncio.run_coroutine_threadsafe"] == [],
         ),
     )
@@ -192,7 +263,8 @@ def _register_same():
 
 @contract("contracts.thread.call_then_run_owner_loop", props=["C20"])
 def _(c):
-    c.arg("proxy", T.obj(PROXY))
+    c.arg("obj", T.ext(WRAPPED))
+    c.arg("owner_loop", T.ext(OWNER_LOOP))
     c.arg("arg", T.opaque)
     c.cases(
         ("plain_method from another loop", {"name": T.const("plain_method"), "__same__": False}),
@@ -200,7 +272,8 @@ def _(c):
     )
     c.setup = lambda I, b: _set_caller_loop(_SAME[I.ctx.ghost.get("__case__", "")])(I, b)
     c.inline_callees = True
-    c.requires("pre.owner_loop_open", lambda proxy: not proxy._obj_loop.is_closed())
+    c.native_context = _native_thread_context
+    c.requires("pre.owner_loop_open", lambda owner_loop: not owner_loop.is_closed())
     # "... and must return nothing": on the owner's side the queued call runs the method exactly once with
     # the caller's arguments, and a method that returns a value is refused with TypeError
     c.raises("returns_a_value", TypeError, when=lambda name: name == "plain_returning")
@@ -211,12 +284,45 @@ def _(c):
     )
 
 
+def _burst_setup(I, b):
+    I.ctx.ghost["running_loop"] = T.ext(OWNER_LOOP).fresh(I, "caller_loop")
+    b["caller_loop"] = I.ctx.ghost["running_loop"]
+
+
+@contract("contracts.thread.burst_then_run_owner_loop", props=["C20"])
+def _(c):
+    c.arg("obj", T.ext(WRAPPED))
+    c.arg("owner_loop", T.ext(OWNER_LOOP))
+    c.arg("a1", T.opaque)
+    c.arg("a2", T.opaque)
+    kinds = ("plain_method", "plain_returning")
+    c.cases(*[(f"{f} then {s_}", {"first": T.const(f), "second": T.const(s_)}) for f in kinds for s_ in kinds])
+    c.setup = _burst_setup
+    c.inline_callees = True
+    c.native_context = _native_thread_context
+    c.requires("pre.owner_loop_open", lambda owner_loop: not owner_loop.is_closed())
+    # "bursts of concurrent calls": every queued call is executed on the owner's side exactly once, with its
+    # own arguments and in the order of the calls -- also when another call of the burst is refused (returns
+    # a value) on the owner's side
+    c.ensures(
+        "post.every_call_of_a_burst_runs_once_in_order",
+        lambda first, second, a1, a2, fx: [(r[0], r[2], r[3]) for r in fx if r[0].startswith("wrapped.")]
+        == [("wrapped." + first, (a1,), {"key": a1}), ("wrapped." + second, (a2,), {"key": a2})],
+    )
+    c.ensures("post.nothing_returned_to_the_caller", lambda result: result[0] is None and result[1] is None)
+
+
 _register_same()
 
 
 # ---- a wrapper fetched on one loop and invoked on another (e.g. stored as a callback) -----------------
 def switch_to_other_loop():
-    raise NotImplementedError("ghost operation of the contract language")
+    """ghost operation of the contract language; natively (replay): the running loop becomes another stub loop"""
+    if _SHIM[0] is None:
+        raise NotImplementedError("ghost operation of the contract language")
+    import types as _t
+
+    _SHIM[0].running = _t.SimpleNamespace(is_closed=lambda: False, name="callers_loop")
 
 
 @external("contracts.thread.switch_to_other_loop")
@@ -226,7 +332,8 @@ def _(I, args, kwargs):
     return other
 
 
-def lookup_on_owner_loop_call_from_another(proxy, name, arg):
+def lookup_on_owner_loop_call_from_another(obj, owner_loop, name, arg):
+    proxy = thread.ThreadsafeProxy(obj, owner_loop)
     wrapper = getattr(proxy, name)  # looked up while the owner's loop is the running loop
     switch_to_other_loop()  # ... and invoked later from a different loop's thread
     return wrapper(arg, key=arg)
@@ -234,13 +341,15 @@ def lookup_on_owner_loop_call_from_another(proxy, name, arg):
 
 @contract("contracts.thread.lookup_on_owner_loop_call_from_another", props=["C20"])
 def _(c):
-    c.arg("proxy", T.obj(PROXY))
+    c.arg("obj", T.ext(WRAPPED))
+    c.arg("owner_loop", T.ext(OWNER_LOOP))
     c.arg("arg", T.opaque)
     c.cases(("coro_method", {"name": T.const("coro_method"), "__same__": True}),
             ("plain_method", {"name": T.const("plain_method"), "__same__": True}))
     c.setup = lambda I, b: _set_caller_loop(True)(I, b)
     c.inline_callees = True
-    c.requires("pre.owner_loop_open", lambda proxy: not proxy._obj_loop.is_closed())
+    c.native_context = _native_thread_context
+    c.requires("pre.owner_loop_open", lambda owner_loop: not owner_loop.is_closed())
     # "never on the caller's": what decides the dispatch is the loop running at the time of the call
     c.ensures(
         "post.dispatch_decided_at_call_time",
